@@ -36,6 +36,10 @@ var solvers = []solverSpec{
 	}},
 }
 
+var z3NoMBQI = solverSpec{"z3-new-ematch", func(f string, t int) []string {
+	return []string{"z3-new", fmt.Sprintf("-T:%d", t), "smt.mbqi=false", f}
+}}
+
 func runSolver(s solverSpec, file string, timeoutS int) (status string, out string, secs float64) {
 	ctx, cancel := context.WithTimeout(context.Background(), time.Duration(timeoutS+2)*time.Second)
 	defer cancel()
@@ -99,6 +103,20 @@ func SolveAll(g *Gen, header string, results []*FnResult, outDir string, par int
 			short := timeoutS
 			if short > 5 {
 				short = 5
+			}
+			// stage 0: E-matching only (no model-based instantiation), 1 s. On VCs with pattern-less quantifiers
+			// z3's MBQI rounds can spend the whole stage-1 budget instantiating heap axioms although plain
+			// E-matching closes the goal in a fraction of a second; everything this stage does not close goes
+			// through the unchanged stages below.
+			if !allSolvers {
+				st0, o0, secs0 := runSolver(z3NoMBQI, file, 1)
+				sr.Tried = append(sr.Tried, fmt.Sprintf("%s:%s:%.2fs", z3NoMBQI.name, st0, secs0))
+				if st0 == "unsat" {
+					sr.Status, sr.Solver, sr.Seconds, sr.Output = st0, z3NoMBQI.name, secs0, o0
+					<-sem
+					out[i] = sr
+					return
+				}
 			}
 			st, o, secs := runSolver(solvers[0], file, short)
 			sr.Tried = append(sr.Tried, fmt.Sprintf("%s:%s:%.2fs", solvers[0].name, st, secs))
